@@ -1,4 +1,260 @@
-import GolibsVerif.Model.NetReversed
+/-
+C04 — property theorems: the ARPA address codec of `netutil/reversed.go`.
+
+* `encode_canon`: `IPToReversedAddr` writes the canonical PTR name (`Spec/C04.lean`, from RFC
+  1035 §3.5 / RFC 3596 §2.5) of the address its argument denotes, rejects every other slice
+  length, never panics.
+* `accepts_spelling`, `accepts_only_canon_partial`: whatever `IPFromReversedAddr` accepts is,
+  after trimming one dot and ASCII lower-casing, the dotted-decimal / nibble name of the
+  address it returns — for every behaviour of `idna.ToASCII`.  The unconditional statement
+  `accepts_only_canon` of the property is FALSE for the code as it is (theorem
+  `accepts_only_canon_refuted`): the 72-byte `ip6.arpa` name of an IPv4-mapped address is
+  accepted and decoded to the IPv4-mapped IPv6 address, whose canonical name is the
+  `in-addr.arpa` one.
+* `decode_encode`: under the contract IDNA-1, every ASCII case variant of the canonical name
+  of every address, with or without one trailing dot, decodes to that address.
+* `ipFromReversedAddr_total`: no input and no `idna.ToASCII` make the decoder panic; every
+  rejection is an ARPA `*AddrError` carrying the trimmed input.
+-/
+import GolibsVerif.Lemmas.C04Main
+
 namespace GolibsVerif.C04
-theorem placeholder : True := trivial
+open GolibsVerif.Netutil GolibsVerif.Str GolibsVerif.Netip GolibsVerif.Gen.Consts GolibsVerif
+
+/-- The constants regenerated from `/repo/netutil` are the documented roots and the length
+of a full IPv6 name. -/
+theorem consts_documented :
+    arpaV4Suffix = 46 :: (lblInAddr ++ 46 :: lblArpa) ∧
+    arpaV6Suffix = 46 :: (lblIp6 ++ 46 :: lblArpa) ∧ arpaV6MaxLen = 72 := ⟨rfl, rfl, rfl⟩
+
+/-! ### 1. the encoder -/
+
+/-- `IPToReversedAddr(ip)` is the canonical PTR name of the address `ip` denotes (an
+IPv4-mapped 16-byte slice denotes the IPv4 address); slices of any other length are
+rejected (`none` = the `*AddrError`); no panic.  Since `canonPTR` encodes an IPv4-mapped
+address as IPv4, the result is also `canonPTR (.v6 ip [])` for every 16-byte slice. -/
+theorem encode_canon (ip : Bytes) (hb : ∀ b ∈ ip, b < 256) :
+    (∀ a, denotes ip a → ipToReversedAddr ip = .ok (some (canonPTR a))) ∧
+    (ip.length = 16 → ipToReversedAddr ip = .ok (some (canonPTR (.v6 ip [])))) ∧
+    (ip.length ≠ 4 → ip.length ≠ 16 → ipToReversedAddr ip = .ok none) ∧
+    (∀ e, ipToReversedAddr ip ≠ .error e) := by
+  have h4 : ip.length = 4 → ipToReversedAddr ip = .ok (some (ptr4 ip)) := by
+    intro hl
+    simp only [ipToReversedAddr, ipTo4, hl, if_true, sliceFrom_v4suffix, bind, Except.bind, pure,
+      Except.pure, enc_v4 ip hb]
+  have h46 : is4in6 ip → ipToReversedAddr ip = .ok (some (ptr4 (ip.drop 12))) := by
+    intro hm
+    have hne : ¬ (ip.length = 4) := by rw [hm.1]; omega
+    simp only [ipToReversedAddr, ipTo4_of_len16 ip hm.1, hm, if_true, sliceFrom_v4suffix, bind,
+      Except.bind, pure, Except.pure, enc_v4 (ip.drop 12) (fun x hx => hb x (List.mem_of_mem_drop hx))]
+  have h6 : ip.length = 16 → ¬ is4in6 ip → ipToReversedAddr ip = .ok (some (ptr6 ip)) := by
+    intro hl hm
+    have hne : ¬ (ip.length = 4) := by rw [hl]; omega
+    have h164 : ¬ ((16 : Nat) = 4) := by decide
+    simp only [ipToReversedAddr, ipTo4_of_len16 ip hl, hm, if_false, ipTo16, hl, h164, if_true,
+      sliceFrom_v6suffix, bind, Except.bind, pure, Except.pure, enc_v6 ip hb]
+  have h16 : ip.length = 16 → ipToReversedAddr ip = .ok (some (canonPTR (.v6 ip []))) := by
+    intro hl
+    unfold canonPTR
+    by_cases hm : is4in6 ip
+    · simp only [hm, if_true]; exact h46 hm
+    · simp only [hm, if_false]; exact h6 hl hm
+  have hnone : ip.length ≠ 4 → ip.length ≠ 16 → ipToReversedAddr ip = .ok none := by
+    intro h1 h2
+    simp [ipToReversedAddr, ipTo4, ipTo16, h1, h2, pure, Except.pure]
+  refine ⟨?_, h16, hnone, ?_⟩
+  · rintro a (⟨hl, rfl⟩ | ⟨hm, rfl⟩ | ⟨hl, hm, rfl⟩)
+    · exact h4 hl
+    · exact h46 hm
+    · rw [h16 hl]
+  · intro e he
+    by_cases hl4 : ip.length = 4
+    · rw [h4 hl4] at he; cases he
+    · by_cases hl16 : ip.length = 16
+      · rw [h16 hl16] at he; cases he
+      · rw [hnone hl4 hl16] at he; cases he
+
+/-! ### 2. the decoder accepts only canonical spellings -/
+
+/-- Whatever `IPFromReversedAddr` accepts, for any behaviour of `idna.ToASCII`: the input,
+with one trailing dot trimmed and ASCII-lower-cased, is exactly `d.c.b.a.in-addr.arpa`
+(decimal, no leading zeros) of the IPv4 address returned, or exactly the 32-nibble
+`ip6.arpa` name of the zone-less IPv6 address returned. -/
+theorem accepts_spelling (toASCII : Bytes → Option Bytes) (s : Bytes) (a : Addr)
+    (h : ipFromReversedAddr toASCII s = .ok (.ok a)) :
+    (∃ b, a = .v4 b ∧ b.length = 4 ∧ (∀ x ∈ b, x < 256) ∧
+      asciiLower (trimSuffix s [46]) = ptr4 b) ∨
+    (∃ b, a = .v6 b [] ∧ b.length = 16 ∧ (∀ x ∈ b, x < 256) ∧
+      asciiLower (trimSuffix s [46]) = ptr6 b) := by
+  rcases prologue_cases toASCII s with ⟨hv, _⟩ | ⟨inner, hp⟩
+  · rw [fromRev_of_valid toASCII s hv] at h
+    exact body_accept _ a h
+  · rw [fromRev_of_invalid toASCII s _ hp] at h
+    cases h
+
+/-
+The property's statement, FALSE for the code as it is (see `accepts_only_canon_refuted`):
+
+  theorem accepts_only_canon (toASCII) (s) (a) (h : ipFromReversedAddr toASCII s = .ok (.ok a)) :
+      asciiLower (trimSuffix s [46]) = canonPTR a
+
+What holds is the same conclusion for every accepted input whose result is not an
+IPv4-mapped IPv6 address: -/
+
+/-- `accepts_only_canon`, restricted to results that are not IPv4-mapped IPv6 addresses:
+the accepted input is, ASCII-case-insensitively and modulo one trailing dot, the canonical
+PTR name of the address returned; the address is well-formed and has no zone. -/
+theorem accepts_only_canon_partial (toASCII : Bytes → Option Bytes) (s : Bytes) (a : Addr)
+    (h : ipFromReversedAddr toASCII s = .ok (.ok a)) (hm : ∀ b z, a = .v6 b z → ¬ is4in6 b) :
+    asciiLower (trimSuffix s [46]) = canonPTR a ∧ WF a ∧ (∀ b z, a = .v6 b z → z = []) := by
+  rcases accepts_spelling toASCII s a h with ⟨b, rfl, hl, hb, hs⟩ | ⟨b, rfl, hl, hb, hs⟩
+  · exact ⟨hs, ⟨hl, hb⟩, fun _ _ he => by cases he⟩
+  · refine ⟨?_, ⟨hl, hb⟩, fun _ _ he => by cases he; rfl⟩
+    unfold canonPTR
+    simp only [hm b [] rfl, if_false]
+    exact hs
+
+/-- IPv4 results are never affected by the restriction. -/
+theorem accepts_only_canon_v4 (toASCII : Bytes → Option Bytes) (s : Bytes) (b : List Nat)
+    (h : ipFromReversedAddr toASCII s = .ok (.ok (.v4 b))) :
+    asciiLower (trimSuffix s [46]) = canonPTR (.v4 b) :=
+  (accepts_only_canon_partial toASCII s _ h (fun _ _ he => by cases he)).1
+
+/-- the `ip6.arpa` name of `::ffff:1.2.3.4` -/
+def mappedWitness : Bytes := ptr6 [0, 0, 0, 0, 0, 0, 0, 0, 0, 0, 255, 255, 1, 2, 3, 4]
+
+/-- The unconditional `accepts_only_canon` does not hold: with `idna.ToASCII` the identity,
+`4.0.3.0.2.0.1.0.f.f.f.f.0.….0.ip6.arpa` is accepted and decoded to `::ffff:1.2.3.4`, whose
+canonical PTR name is `4.3.2.1.in-addr.arpa`. -/
+theorem accepts_only_canon_refuted :
+    ¬ ∀ (toASCII : Bytes → Option Bytes) (s : Bytes) (a : Addr),
+      ipFromReversedAddr toASCII s = .ok (.ok a) → asciiLower (trimSuffix s [46]) = canonPTR a := by
+  intro hall
+  have hb : ∀ x ∈ [0, 0, 0, 0, 0, 0, 0, 0, 0, 0, 255, 255, 1, 2, 3, 4], x < 256 := by decide
+  have hlow : asciiLower mappedWitness = mappedWitness := by decide
+  have hv : validateDomainName some (trimSuffix mappedWitness [46]) = .ok none := by
+    have ht : trimSuffix mappedWitness [46] = mappedWitness := by decide
+    rw [ht]
+    refine domain_ok_of_labels some (fun s _ _ => rfl) mappedWitness _ (hlow.trans (ptr6_labels _)) ?_ ?_
+    · intro l hl
+      exact good_labels6 _ hb l hl
+    · rw [← ptr6_labels, ptr6_length]; decide
+  have hacc : ipFromReversedAddr some mappedWitness =
+      .ok (.ok (.v6 [0, 0, 0, 0, 0, 0, 0, 0, 0, 0, 255, 255, 1, 2, 3, 4] [])) := by
+    rw [fromRev_of_valid some mappedWitness hv]
+    have ht : trimSuffix mappedWitness [46] = mappedWitness := by decide
+    rw [ht]
+    exact body_ptr6 mappedWitness _ rfl hb hlow
+  have hne := hall some mappedWitness _ hacc
+  have hlen : (asciiLower (trimSuffix mappedWitness [46])).length = 72 := by decide
+  rw [hne] at hlen
+  simp [canonPTR, is4in6, ptr4, joinDot, dec, lblInAddr, lblArpa] at hlen
+
+/-! ### 3. the decoder inverts the encoder -/
+
+/-- Under IDNA-1 (`idna.ToASCII` returns an ASCII name without A-labels unchanged): every
+ASCII case variant `v` of the canonical PTR name of a well-formed address `a` (IPv4, or
+zone-less IPv6 that is not IPv4-mapped), with or without one trailing dot, decodes to `a`. -/
+theorem decode_encode (toASCII : Bytes → Option Bytes)
+    (hT : ∀ s, (∀ b ∈ s, b < 128) → NoXnLabel s → toASCII s = some s)
+    (a : Addr) (hwf : WF a) (hm : ∀ b z, a = .v6 b z → z = [] ∧ ¬ is4in6 b)
+    (v : Bytes) (hv : asciiLower v = canonPTR a) (dot : Bytes) (hd : dot = [] ∨ dot = [46]) :
+    ipFromReversedAddr toASCII (v ++ dot) = .ok (.ok a) := by
+  cases a with
+  | invalid => exact absurd hwf (by simp [WF])
+  | v4 b =>
+    obtain ⟨hl, hb⟩ := hwf
+    match b, hl with
+    | [x0, x1, x2, x3], _ =>
+      have h0 := hb x0 (by simp)
+      have h1 := hb x1 (by simp)
+      have h2 := hb x2 (by simp)
+      have h3 := hb x3 (by simp)
+      have hv' : asciiLower v = ptr4 [x0, x1, x2, x3] := hv
+      have hlab := ptr4_labels x0 x1 x2 x3
+      have htrim : trimSuffix (v ++ dot) [46] = v :=
+        trim_variant v _ dot (hv'.trans (hlab.trans (joinDot_arpa _ (by simp [labels4])))) hd
+      have hvalid : validateDomainName toASCII (trimSuffix (v ++ dot) [46]) = .ok none := by
+        rw [htrim]
+        exact domain_ok_of_labels toASCII hT v _ (hv'.trans hlab)
+          (good_labels4 x0 x1 x2 x3 h0 h1 h2 h3) (hlab ▸ ptr4_length_le x0 x1 x2 x3 h0 h1 h2 h3)
+      rw [fromRev_of_valid toASCII _ hvalid, htrim]
+      exact body_ptr4 v x0 x1 x2 x3 h0 h1 h2 h3 hv'
+  | v6 b z =>
+    obtain ⟨hl, hb⟩ := hwf
+    obtain ⟨hz, hnm⟩ := hm b z rfl
+    subst hz
+    have hv' : asciiLower v = ptr6 b := by
+      rw [hv]; unfold canonPTR; simp only [hnm, if_false]
+    have hlab := ptr6_labels b
+    have htrim : trimSuffix (v ++ dot) [46] = v :=
+      trim_variant v _ dot (hv'.trans (hlab.trans (joinDot_arpa _ (by simp [labels6])))) hd
+    have hvalid : validateDomainName toASCII (trimSuffix (v ++ dot) [46]) = .ok none := by
+      rw [htrim]
+      refine domain_ok_of_labels toASCII hT v _ (hv'.trans hlab) (good_labels6 b hb) ?_
+      rw [← hlab, ptr6_length, hl]; decide
+    rw [fromRev_of_valid toASCII _ hvalid, htrim]
+    exact body_ptr6 v b hl hb hv'
+
+/-! ### 4. totality and the shape of rejections -/
+
+/-- For every `idna.ToASCII` and every input, `IPFromReversedAddr` returns (no Go panic: no
+index of `ipv6FromReversed` is out of range, the slice before `.in-addr.arpa` is in range,
+`replaceKind`'s `panic` branch is not reached), and every rejection is an `*AddrError` of
+kind "arpa domain name" whose `Addr` is the input without its one trailing dot. -/
+theorem ipFromReversedAddr_total (toASCII : Bytes → Option Bytes) (s : Bytes) :
+    ∃ r, ipFromReversedAddr toASCII s = .ok r ∧
+      ∀ e, r = .error e → ∃ inner, e = .addr .arpa (trimSuffix s [46]) inner := by
+  rcases prologue_cases toASCII s with ⟨hv, _⟩ | ⟨inner, hp⟩
+  · rw [fromRev_of_valid toASCII s hv]
+    exact body_total _
+  · exact ⟨_, fromRev_of_invalid toASCII s _ hp, fun e he => by cases he; exact ⟨_, rfl⟩⟩
+
+/-- the helper alone: on a string of at least 64 bytes no index is out of range (the caller
+checks `len(arpa) == 72`) -/
+theorem ipv6FromReversed_no_panic (arpa : Bytes) (h : 64 ≤ arpa.length) :
+    ∃ r, ipv6FromReversed arpa = .ok r := ipv6FromReversed_total arpa h
+
+/-! ### Non-vacuity -/
+
+/-- `idna.ToASCII` as the identity satisfies IDNA-1 -/
+example : ∀ s : Bytes, (∀ b ∈ s, b < 128) → NoXnLabel s → (some : Bytes → Option Bytes) s = some s :=
+  fun _ _ _ => rfl
+
+example : canonPTR (.v4 [192, 0, 2, 255]) = ascii "255.2.0.192.in-addr.arpa" := by
+  simp [canonPTR, ptr4, joinDot, dec, lblInAddr, lblArpa]; decide
+example : canonPTR (.v6 [0x20, 0x01, 0x0d, 0xb8, 0, 0, 0, 0, 0, 0, 0, 0, 0, 0, 0, 0x1f] []) =
+    ascii "f.1.0.0.0.0.0.0.0.0.0.0.0.0.0.0.0.0.0.0.0.0.0.0.8.b.d.0.1.0.0.2.ip6.arpa" := by decide
+example : canonPTR (.v6 [0, 0, 0, 0, 0, 0, 0, 0, 0, 0, 255, 255, 1, 2, 3, 4] []) =
+    canonPTR (.v4 [1, 2, 3, 4]) := by simp [canonPTR, is4in6]
+example : denotes [1, 2, 3, 4] (.v4 [1, 2, 3, 4]) := Or.inl ⟨rfl, rfl⟩
+example : denotes [0, 0, 0, 0, 0, 0, 0, 0, 0, 0, 255, 255, 1, 2, 3, 4] (.v4 [1, 2, 3, 4]) :=
+  Or.inr (Or.inl ⟨by decide, rfl⟩)
+example : ipToReversedAddr [1, 2, 3, 4] = .ok (some (ascii "4.3.2.1.in-addr.arpa")) := by decide
+example : ipToReversedAddr [1, 2, 3] = .ok none := by decide
+/-- a mixed-case variant with a trailing dot is decoded (instance of `decode_encode`) -/
+example : ipFromReversedAddr some (ascii "4.3.2.1.In-Addr.ARPA.") = .ok (.ok (.v4 [1, 2, 3, 4])) :=
+  decode_encode some (fun _ _ _ => rfl) (.v4 [1, 2, 3, 4]) ⟨rfl, by decide⟩
+    (fun _ _ he => by cases he) (ascii "4.3.2.1.In-Addr.ARPA")
+    (by simp [canonPTR, ptr4, joinDot, dec, lblInAddr, lblArpa]; decide) [46] (Or.inr rfl)
+/-- model evaluation: accepted / rejected, as a Boolean (`Err` has no decidable equality) -/
+def acceptedAs (r : GoM (Except Err Addr)) (a : Addr) : Bool :=
+  match r with
+  | .ok (.ok a') => a' == a
+  | _ => false
+def rejected (r : GoM (Except Err Addr)) : Bool :=
+  match r with
+  | .ok (.error _) => true
+  | _ => false
+example : acceptedAs (ipFromReversedAddr some (ascii "4.3.2.1.IN-addr.arpa.")) (.v4 [1, 2, 3, 4]) = true := by
+  decide
+/-- leading zero, `+`, five labels, 31 nibbles, the repaired non-ASCII look-alike root -/
+example : rejected (ipFromReversedAddr some (ascii "04.3.2.1.in-addr.arpa")) = true := by decide
+example : rejected (ipFromReversedAddr some (ascii "+4.3.2.1.in-addr.arpa")) = true := by decide
+example : rejected (ipFromReversedAddr some (ascii "5.4.3.2.1.in-addr.arpa")) = true := by decide
+example : rejected (ipFromReversedAddr some
+    (ascii "1.0.0.0.0.0.0.0.0.0.0.0.0.0.0.0.0.0.0.0.0.0.0.0.8.b.d.0.1.0.0.ip6.arpa")) = true := by decide
+example : rejected (ipFromReversedAddr some
+    ([52, 46, 51, 46, 50, 46, 49, 46, 0xc4, 0xb0] ++ ascii "n-addr.arpa")) = true := by decide
+
 end GolibsVerif.C04
